@@ -124,7 +124,14 @@ func c12Gen(r *rand.Rand, tier string, idx int) any {
 		if r.Intn(150) == 0 {
 			g = 6 + r.Intn(2) // rare: each such parse reads the file 65535 times
 		}
+		if r.Intn(400) == 0 {
+			g = 8 // rarer: stopped by the harness after 200000 reads
+		}
 		switch g {
+		case 8: // a file including itself three or four times: 3^depth or 4^depth parses
+			c.Kind = "include-graph-fan-out"
+			b = []byte(strings.Repeat("$include /virtual/main\n", 3+r.Intn(2)) + "\"a\": b\n")
+			c.Files["/virtual/main"] = b
 		case 6: // a file including itself twice: 2^depth parses under a depth bound
 			b = []byte("\"a\": b\n$include /virtual/main\nset x y\n$include /virtual/main\n")
 			c.Files["/virtual/main"] = b
@@ -208,7 +215,11 @@ func c12Run(env *fw.Env, raw json.RawMessage) fw.Outcome {
 		case perr != nil:
 			o.Viol("parser-panic:"+panicClass(fmt.Sprint(perr)), ctx+fmt.Sprintf(" panic: %v", perr))
 		case reads > maxReadFile || (err != nil && strings.Contains(err.Error(), "verif: more than")):
-			o.Viol("unbounded-include-recursion", ctx+fmt.Sprintf(" %d ReadFile calls and counting; files=%d", reads, len(c.Files)))
+			sig := "unbounded-include-recursion"
+			if c.Kind == "include-graph-fan-out" {
+				sig = "include-fan-out|a-file-including-itself-three-or-four-times"
+			}
+			o.Viol(sig, ctx+fmt.Sprintf(" %d ReadFile calls and counting; files=%d", reads, len(c.Files)))
 		}
 		_ = err
 	}
